@@ -165,6 +165,7 @@ class ConcRun(object):
         self.n_schedules = n_schedules
         self.enumerate_targeted = enumerate_targeted
         self.serial_cache = {}
+        self.serial_codes = {}
         self.schedule_log = []   # per schedule: (strategy, schedule, sig,
         #                          statuses, switches)
         self.world = world
@@ -225,6 +226,11 @@ class ConcRun(object):
                      alloc_put=14, alloc_post=6, inv_put_all=10,
                      rp_create=10, trait_put=3, rc_put=2, rc_rename=0))
         n = rng.randint(3, 15)
+        if self.focus == 'multi':
+            self.gen.P = [workload.puuid(i) for i in range(
+                max(3, len(self.gen.P)))]
+            self.gen.mix.update(inv_put_all=18, rp_create=14, alloc_put=8)
+            n = rng.randint(6, 16)
         for i in range(n):
             op = self.gen.next_op(self.model)
             pre = self.model.clone()
@@ -236,6 +242,31 @@ class ConcRun(object):
                 self.model = pre
                 return False
             self.model.adopt(dump.natural(w))
+        if self.focus == 'multi':
+            # make sure at least two providers offer something
+            g = self.gen
+            for _ in range(8):
+                m = self.model
+                have = set(p for (p, rc) in m.inventories
+                           if g._room(m, p, rc, set()) > 0)
+                if len(have) >= 2:
+                    break
+                ex = [u for u in g.existing_p(m) if u not in have]
+                if ex:
+                    g.focus_p = [rng.choice(ex)]
+                    op = g.g_inv_put_all(m)
+                    g.focus_p = None
+                else:
+                    op = g.g_rp_create(m)
+                if op is None or op.get('defect'):
+                    continue
+                op.setdefault('kind', 'x')
+                exp = self.model.apply(op)
+                r = self._req(sim, op)
+                self.setup_ops.append(workload.op_brief(op))
+                if r.status != exp.status:
+                    return False
+                self.model.adopt(dump.natural(w))
         return True
 
     def gen_batch(self):
@@ -307,6 +338,57 @@ class ConcRun(object):
                 if op is None:
                     return None
                 batch.append(op)
+        elif self.focus == 'multi':
+            # a claim spanning two providers racing a write to one of them:
+            # the server-side retry loop of replace_all() and the
+            # per-provider compare-and-swap
+            have = sorted(set(p for (p, rc) in m.inventories
+                              if p in ex and g._room(m, p, rc, set()) > 0))
+            if len(have) < 2:
+                return None
+            u1, u2 = rng.sample(have, 2)
+            cs = list(g.C)
+            rng.shuffle(cs)
+            allC = g.C
+            c = cs[0]
+            alloc = g.spanning_alloc(m, [u1, u2], {c})
+            op = None
+            if alloc is not None:
+                v = rng.choice(['1.28', '1.34', '1.38', '1.39'])
+                body = g._alloc_body(v, alloc, c, m, 'right')
+                if rng.random() < 0.7:
+                    op = {'m': 'PUT', 'p': '/allocations/' + c, 'v': v,
+                          'b': body, 'kind': 'alloc_put'}
+                else:
+                    op = {'m': 'POST', 'p': '/allocations', 'v': v,
+                          'b': {c: body}, 'kind': 'alloc_post'}
+            if op is None:
+                return None
+            batch.append(op)
+            kinds = ['inv_put_all', 'inv_put_one', 'rpt_put', 'agg_put',
+                     'alloc_put', 'alloc_put', 'reshape']
+            for i in range(1, n):
+                k = rng.choice(kinds)
+                op2 = None
+                for _ in range(10):
+                    g.focus_p = [rng.choice([u1, u2])]
+                    if k == 'agg_put':
+                        g.versions = ['1.19', '1.28', '1.39']
+                    elif k in ('alloc_put', 'reshape'):
+                        g.versions = ['1.30', '1.34', '1.38', '1.39']
+                        g.C = [cs[i % len(cs)]]
+                    op2 = getattr(g, 'g_' + k)(m)
+                    g.versions = None
+                    g.C = allC
+                    if op2 is not None:
+                        break
+                    k = rng.choice(kinds)
+                if op2 is None:
+                    return None
+                op2.setdefault('kind', k)
+                batch.append(op2)
+            if rng.random() < 0.5:
+                batch.reverse()
         else:  # mixed: claims racing each other and provider updates
             u = rng.choice(ex)
             g.focus_p = [u] if rng.random() < 0.7 else None
@@ -355,7 +437,7 @@ class ConcRun(object):
     # ------------------------------------------------------------------
     def run_concurrent(self, batch):
         w = self.world
-        sim = seams.Sim(w, seed=self.seed ^ 0xC0C0, trace_sql=False,
+        sim = seams.Sim(w, seed=self.seed ^ 0xC0C0, trace_sql=True,
                         commit_log=True, schedule=self.fixed_schedule)
         sim.prime_commit_log()
         self.state0 = sim._last_state
@@ -376,6 +458,20 @@ class ConcRun(object):
         self.stats['requests'] += len(batch)
         self.sim = sim
         self.end_idx = end_idx
+        for t in tasks:
+            # server-side retry: inside one transaction the allocations are
+            # deleted again after a provider generation update was attempted
+            seen_upd = False
+            for (tt, verb, table) in t.ops:
+                if tt == 'B' and verb == 'top':
+                    seen_upd = False
+                elif tt == 'S' and verb == 'UPDATE' and \
+                        table == 'resource_providers':
+                    seen_upd = True
+                elif tt == 'S' and verb == 'DELETE' and \
+                        table == 'allocations' and seen_upd:
+                    self.probe('server_side_retry_entered')
+                    break
         return [t.result for t in tasks], tasks
 
     def serial(self, batch, order):
@@ -388,11 +484,15 @@ class ConcRun(object):
         w.restore(self.snap0)
         sim = seams.Sim(w, seed=1, trace_sql=False)
         out = {}
+        codes = {}
         for i in order:
             op = batch[i]
-            out[i] = self._req(sim, op).status
+            r = self._req(sim, op)
+            out[i] = r.status
+            codes[i] = r.error_code()
         res = (out, dump.natural(w))
         self.serial_cache[key] = res
+        self.serial_codes[key] = codes
         return res
 
     # ------------------------------------------------------------------
@@ -494,16 +594,45 @@ class ConcRun(object):
             self.add({'C07'}, 'forest', msg, kinds)
 
         # ---- serial-permutation replay (C07 / C05) -----------------------------
+        def moved(n):
+            """Which generations moved relative to the start state (robust
+            against implementations that bump more than once)."""
+            out = set()
+            for key in ('providers', 'consumers'):
+                for u, obj in n[key].items():
+                    o0 = nat0[key].get(u)
+                    if o0 is not None and \
+                            obj['generation'] != o0['generation']:
+                        out.add((key, u))
+            return out
         ok_perm = None
+        state_perm = None
         serial_seen = []
+        movedC = moved(natC)
         for order in itertools.permutations(succ):
             st, nat = self.serial(batch, order)
             core = dump.natural_core(nat, generations=False)
             all_ok = all(s < 400 for s in st.values())
             serial_seen.append((order, st, core))
             if all_ok and core == coreC:
-                ok_perm = order
-                break
+                state_perm = (order, nat)
+                if moved(nat) == movedC:
+                    ok_perm = order
+                    break
+        if ok_perm is None and state_perm is not None:
+            # data equal to a serial execution, but a generation that the
+            # serial execution moves stayed put (or the reverse)
+            order, nat = state_perm
+            ms = moved(nat)
+            tags = {'C05', 'C10'}
+            if all(k in self.C07_KINDS for k in kinds):
+                tags.add('C07')
+            self.add(tags, 'generation-movement-differs-from-serial',
+                     'serial order %r moves %r, the concurrent execution '
+                     'moved %r' % (list(order), sorted(ms - movedC),
+                                   sorted(movedC - ms)),
+                     [kinds[i] for i in succ])
+            ok_perm = order
         if not succ:
             # nothing succeeded: state must be the start state
             if coreC != dump.natural_core(nat0, generations=False):
@@ -618,13 +747,19 @@ class ConcRun(object):
             r = resps[i]
             if r.status >= 500:
                 continue
+            v = M.ver(batch[i].get('v') or '1.0')
+            code = r.error_code()
             if r.status == 409:
+                # a conflict; which of several simultaneous reasons
+                # (stale generation, inventory in use, no room left) the
+                # implementation reports first is not part of the oracle
                 continue
             others = [j for j in range(len(batch)) if j != i]
             explained = False
             for k in range(len(others) + 1):
                 for pre in itertools.permutations(others, k):
-                    st, _ = self.serial(batch, list(pre) + [i])
+                    order = list(pre) + [i]
+                    st, _ = self.serial(batch, order)
                     if st[i] == r.status:
                         explained = True
                         break
@@ -706,13 +841,6 @@ class ConcRun(object):
                     for u, g in gens.items())
                 if stale:
                     self.probe('cas_lost')
-                    if r.status == 409 and v >= (1, 23):
-                        code = r.error_code()
-                        if code not in (M.CONCURRENT, M.INV_INUSE):
-                            self.add({'C05'}, 'conflict-without-code',
-                                     'request %d (%s) lost the race: 409 '
-                                     'with code %r' % (i, kinds[i], code),
-                                     [kinds[i]])
         for (u, g), lst in winners.items():
             if len(lst) > 1:
                 self.add({'C05'}, 'two-winners-same-generation',
